@@ -11,7 +11,7 @@ from .. import labelled as LB
 ID = "C02"
 LEVEL = "proof"
 PROP_FILE = "Properties/C02.v"
-PROOF_FILES = ["Gen/SpfsGen.v", "Proofs/SpfsGenProofs.v", "Gen/ToposortGen.v", "Proofs/ToposortGenProofs.v", "Gen/EvalGen.v", "Proofs/EvalGenProofs.v", "Gen/TableGen.v", "Proofs/TableGenProofs.v", "Gen/EntryGen.v", "Proofs/EntryGenProofs.v", "Proofs/AllAnyProofs.v", "Proofs/SpfsFinal.v", "Proofs/SpfsProofs.v", "Proofs/ThlProofs.v", "Model/Spfs.v", "Model/Thl.v", "Model/Recon.v", "Model/Entry.v", "Model/Subseq.v", "Model/Toposort.v",
+PROOF_FILES = ["Proofs/ReviewCModels.v", "Proofs/ReviewCSpfsOpt.v", "Proofs/ReviewCSpfsAny.v", "Gen/SpfsGen.v", "Proofs/SpfsGenProofs.v", "Gen/ToposortGen.v", "Proofs/ToposortGenProofs.v", "Gen/EvalGen.v", "Proofs/EvalGenProofs.v", "Gen/TableGen.v", "Proofs/TableGenProofs.v", "Gen/EntryGen.v", "Proofs/EntryGenProofs.v", "Proofs/AllAnyProofs.v", "Proofs/SpfsFinal.v", "Proofs/SpfsProofs.v", "Proofs/ThlProofs.v", "Model/Spfs.v", "Model/Thl.v", "Model/Recon.v", "Model/Entry.v", "Model/Subseq.v", "Model/Toposort.v",
                "Proofs/EntryProofs.v", "Proofs/SubseqProofs.v", "Proofs/LabelCostProofs.v", "Proofs/ToposortProofs.v"]
 TRUSTED = ["translator translator/pyfun.py (seventh extension) + the type tables in translator/spfs_gen.py: compute/super_reconciliation.py (_make_prec_graph, _compute_spfs_entry, _compute_spfs_table, _decode_spfs_table, _spfs, sreconcile_base_spfs, sreconcile_extended_spfs; binary inputs: binarize() = the input itself, label_internal() a no-op) and TableProxy.keys/__iter__ are translated into Gen/SpfsGen.v on every run and proved equal to Model/Spfs.v (object nodes = identifiers, species = root paths, LCA structure = the path operations, dictionary/set iteration orders = parameters the theorems quantify over)", "model Model/Spfs.v of _compute_spfs_entry/_compute_spfs_table/_decode_spfs_table/_spfs (after fix D5), on the Entry (C16), mask (C18), toposort (C19) and evaluator (C06) models"]
 ASSUMES = ["binary trees", "cost vectors with spe + 2*sloss <= dup + 2*floss for the optimality clauses (F-COHERENCE)"]
